@@ -23,7 +23,7 @@ commits (SQLite is single-writer), so running B there would be the same as runni
 driver records such points as ``skipped-intxn`` and does not run them.  Hence the enumerated set is exactly the
 set of interleavings that SQLite's locking permits **at transaction granularity, plus all read / CAS windows**:
 "B runs atomically inside a read-window of A", nested to depth 2 (C inside a read-window of B inside a
-read-window of A).  B's own multi-transaction operation *can* be split (arm B with C), but A cannot resume
+read-window of A).  B's own multi-transaction operation *can* be split (arm B with C), but with arming alone A cannot resume
 inside B, so this is NOT every statement-level interleaving of three free-running workers; it is the
 preemption-bounded subset (bound = nesting depth).  Reads of B inside a write transaction of A are not explored
 (the engine's default journal mode is DELETE, where they would see the pre-transaction state anyway).
